@@ -296,7 +296,7 @@ fn nzp_read_tree(root: &std::path::Path) -> std::collections::BTreeMap<String, V
     m
 }
 
-//@unit props=C04 label=B tier=quick native=1 fn=patch::ZiPatch::{create,apply} bound="by execution on temporary directories: 13 pairs of trees (one of them with files that are empty in A, in B or in both) (nesting depth 0..4) mixing unchanged, changed, added and removed files with sizes from {1, 127, 128, 129, 31999, 32000, 32001, 300000}, incl. identical trees, empty A, empty B, and one pair whose names differ only in letter case"
+//@unit props=C04 label=B tier=quick native=1 fn=patch::ZiPatch::{create,apply} bound="by execution on temporary directories: 13 pairs of trees (one of them with files that are empty in A, in B or in both, and files whose content changes while the length stays the same) (nesting depth 0..4) mixing unchanged, changed, added and removed files with sizes from {1, 127, 128, 129, 31999, 32000, 32001, 300000}, incl. identical trees, empty A, empty B, and one pair whose names differ only in letter case"
 //@desc applying the patch created from (A, B) to a copy of A yields exactly B's non-empty files with B's contents (files only in B appear, files in both end with B's content, files only in A disappear); creating the patch modifies neither A nor B
 #[test]
 fn native_zipatch_create_apply() {
@@ -307,11 +307,11 @@ fn native_zipatch_create_apply() {
     let mut cases = 0u64;
     for pair in 0..13usize {
         // state of path k in this pair: 0 absent/absent, 1 same, 2 changed, 3 only in A, 4 only in B,
-        // 5 non-empty in A but EMPTY in B (must disappear: the result is B's non-empty files), 6 empty in A and non-empty in B, 7 empty in both, 8 only in B and empty
+        // 5 non-empty in A but EMPTY in B (must disappear: the result is B's non-empty files), 6 empty in A and non-empty in B, 7 empty in both, 8 only in B and empty, 9 changed content of the SAME length
         let mut a_files: Vec<(String, Vec<u8>)> = vec![];
         let mut b_files: Vec<(String, Vec<u8>)> = vec![];
         for (k, rel) in paths.iter().enumerate() {
-            let st = match pair { 0 => 1, 1 => 4, 2 => 3, 3 => 2, 12 => [5usize, 6, 7, 8, 1, 2, 5, 3][k], _ => (k * 3 + pair) % 5 };
+            let st = match pair { 0 => 1, 1 => 4, 2 => 3, 3 => 2, 12 => [5usize, 6, 7, 8, 9, 2, 5, 9][k], _ => (k * 3 + pair) % 5 };
             let la = sizes[(k + pair) % sizes.len()];
             let lb = sizes[(k * 5 + pair + 1) % sizes.len()];
             match st {
@@ -323,6 +323,7 @@ fn native_zipatch_create_apply() {
                 6 => { a_files.push((rel.to_string(), vec![])); b_files.push((rel.to_string(), nzp_content(k + pair + 300, lb))); }
                 7 => { a_files.push((rel.to_string(), vec![])); b_files.push((rel.to_string(), vec![])); }
                 8 => { b_files.push((rel.to_string(), vec![])); }
+                9 => { let ca = nzp_content(k + pair, la); let mut cb = ca.clone(); let last = cb.len() - 1; cb[last] ^= 0xFF; if last > 0 { cb[0] ^= 0x55; } assert!(ca != cb && ca.len() == cb.len()); a_files.push((rel.to_string(), ca)); b_files.push((rel.to_string(), cb)); }
                 _ => {}
             }
         }
